@@ -340,7 +340,7 @@ def later_script_case(ctx, case):
 
 def blocks(tier, seed):
     q = tier == 'quick'
-    depth = 2 if q else 3
+    depth = 2 if q else 4
     ncfg = len(configurations(seed))
     cs = list(contexts(depth))
     cases = [(ci, c) for c in cs for ci in range(ncfg)]
@@ -367,7 +367,7 @@ def meta(tier, seed):
         rule='complete product contexts x configurations; each case through run_script with additional_flags / plugins / contracts and '
              'through ref.refvm; plus plugin-call-count == signature-related instructions executed and flag-off => side-effect absent',
         states_meaning='distinct (configuration, nesting context) pairs; transitions = constructs entered + probe',
-        bounds={'context_depth': 2 if q else 3, 'context_kinds': list(KINDS)},
+        bounds={'context_depth': 2 if q else 4, 'context_kinds': list(KINDS)},
         assumptions=['scope of a flag changed by SET/UNSET_FLAG across body boundaries is not documented: only later instructions of '
                      'the same body are judged', 'adapter-maker outputs (nonce dependent) are compared as wildcards'],
     )
